@@ -480,3 +480,190 @@ Section Values.
     intros b Hb. apply read_str_ok_len.
   Qed.
 End Values.
+
+(* ---------- reading the invariant ---------- *)
+Lemma safe_no_panic : forall {A} fl n (p : bytes -> res (A * bytes)) bs,
+  safe false fl n p -> List.length bs <= n -> p bs <> RPanic.
+Proof.
+  intros A fl n p bs Hp Hbs Heq. specialize (Hp bs Hbs). rewrite Heq in Hp. cbn [outcome_ok] in Hp. discriminate.
+Qed.
+
+Lemma safe_no_fuel : forall {A} pn n (p : bytes -> res (A * bytes)) bs,
+  safe pn false n p -> List.length bs <= n -> p bs <> RFuel.
+Proof.
+  intros A pn n p bs Hp Hbs Heq. specialize (Hp bs Hbs). rewrite Heq in Hp. cbn [outcome_ok] in Hp. discriminate.
+Qed.
+
+Lemma safe_ok_len : forall {A} pn fl n (p : bytes -> res (A * bytes)) bs a r,
+  safe pn fl n p -> List.length bs <= n -> p bs = ROk (a, r) -> List.length r <= List.length bs.
+Proof.
+  intros A pn fl n p bs a r Hp Hbs Heq. specialize (Hp bs Hbs). rewrite Heq in Hp. exact Hp.
+Qed.
+
+Lemma safe_err_len : forall {A} pn fl n (p : bytes -> res (A * bytes)) bs l,
+  safe pn fl n p -> List.length bs <= n -> p bs = RErr l -> List.length l <= List.length bs.
+Proof.
+  intros A pn fl n p bs l Hp Hbs Heq. specialize (Hp bs Hbs). rewrite Heq in Hp. exact Hp.
+Qed.
+
+Section T.
+  Variable parse : string -> option ty.   (* arbitrary: no hypothesis on the parser is needed *)
+  Variable c : wcfg.
+
+  (* ---- consumption: no decoder leaves more than it was given, for every fuel ---- *)
+  Lemma sig_read_ok_len : forall fuel t bs d r,
+    sig_read parse c fuel t bs = ROk (d, r) -> List.length r <= List.length bs.
+  Proof.
+    intros fuel t bs d r. apply (safe_ok_len false true (List.length bs)); [|lia].
+    apply sig_read_safe. discriminate.
+  Qed.
+  Lemma sig_read_err_len : forall fuel t bs l,
+    sig_read parse c fuel t bs = RErr l -> List.length l <= List.length bs.
+  Proof.
+    intros fuel t bs l. apply (safe_err_len false true (List.length bs)); [|lia].
+    apply sig_read_safe. discriminate.
+  Qed.
+  Lemma spec_dec_ok_len : forall fuel t bs v r,
+    spec_dec parse fuel t bs = ROk (v, r) -> List.length r <= List.length bs.
+  Proof.
+    intros fuel t bs v r. apply (safe_ok_len false true (List.length bs)); [|lia].
+    apply spec_dec_safe. discriminate.
+  Qed.
+  Lemma spec_dec_err_len : forall fuel t bs l,
+    spec_dec parse fuel t bs = RErr l -> List.length l <= List.length bs.
+  Proof.
+    intros fuel t bs l. apply (safe_err_len false true (List.length bs)); [|lia].
+    apply spec_dec_safe. discriminate.
+  Qed.
+  Lemma refl_dec_ok_len : forall eqb t bs v r,
+    refl_dec c eqb t bs = ROk (v, r) -> List.length r <= List.length bs.
+  Proof.
+    intros eqb t bs v r. apply (safe_ok_len true true (List.length bs)); [|lia].
+    apply refl_dec_safe. right; reflexivity.
+  Qed.
+  Lemma refl_dec_err_len : forall eqb t bs l,
+    refl_dec c eqb t bs = RErr l -> List.length l <= List.length bs.
+  Proof.
+    intros eqb t bs l. apply (safe_err_len true true (List.length bs)); [|lia].
+    apply refl_dec_safe. right; reflexivity.
+  Qed.
+  Lemma dec_dval_ok_len : forall fuel bs v r,
+    dec_dval parse c fuel bs = ROk (v, r) -> List.length r <= List.length bs.
+  Proof.
+    intros fuel bs v r. apply (safe_ok_len false true (List.length bs)); [|lia].
+    apply dec_dval_safe. discriminate.
+  Qed.
+  Lemma dec_dval_err_len : forall fuel bs l,
+    dec_dval parse c fuel bs = RErr l -> List.length l <= List.length bs.
+  Proof.
+    intros fuel bs l. apply (safe_err_len false true (List.length bs)); [|lia].
+    apply dec_dval_safe. discriminate.
+  Qed.
+  Lemma dec_capmap_ok_len : forall bs m r,
+    dec_capmap parse c bs = ROk (m, r) -> List.length r <= List.length bs.
+  Proof.
+    intros bs m r. apply (safe_ok_len false false (List.length bs)); [|lia]. apply dec_capmap_safe.
+  Qed.
+  Lemma dec_capmap_err_len : forall bs l,
+    dec_capmap parse c bs = RErr l -> List.length l <= List.length bs.
+  Proof.
+    intros bs l. apply (safe_err_len false false (List.length bs)); [|lia]. apply dec_capmap_safe.
+  Qed.
+
+  (* ---- no panic ---- *)
+  Theorem sig_read_no_panic : forall fuel t bs, sig_read parse c fuel t bs <> RPanic.
+  Proof.
+    intros fuel t bs. apply (safe_no_panic true (List.length bs)); [|lia].
+    apply sig_read_safe. discriminate.
+  Qed.
+  Theorem spec_dec_no_panic : forall fuel t bs, spec_dec parse fuel t bs <> RPanic.
+  Proof.
+    intros fuel t bs. apply (safe_no_panic true (List.length bs)); [|lia].
+    apply spec_dec_safe. discriminate.
+  Qed.
+  Theorem refl_dec_no_panic :
+    refl_neg_len_panics c = false -> forall t bs, refl_dec c tval_eqb t bs <> RPanic.
+  Proof.
+    intros Hc t bs. apply (safe_no_panic true (List.length bs)); [|lia].
+    apply refl_dec_safe. left; exact Hc.
+  Qed.
+  Theorem new_value_no_panic : forall bs, new_value parse c bs <> RPanic.
+  Proof.
+    intro bs. apply (safe_no_panic false (List.length bs)); [|lia]. apply new_value_safe.
+  Qed.
+  Theorem dec_capmap_no_panic : forall bs, dec_capmap parse c bs <> RPanic.
+  Proof.
+    intro bs. apply (safe_no_panic false (List.length bs)); [|lia]. apply dec_capmap_safe.
+  Qed.
+
+  (* ---- fuel ---- *)
+  Theorem refl_dec_total : forall t bs, refl_dec c tval_eqb t bs <> RFuel.
+  Proof.
+    intros t bs. apply (safe_no_fuel true (List.length bs)); [|lia].
+    apply refl_dec_safe. right; reflexivity.
+  Qed.
+  Theorem sig_read_total : forall t bs, sig_read parse c (S (List.length bs)) t bs <> RFuel.
+  Proof.
+    intros t bs. apply (safe_no_fuel false (List.length bs)); [|lia].
+    apply sig_read_safe. intros _. lia.
+  Qed.
+  Theorem spec_dec_total : forall t bs, spec_dec parse (S (List.length bs)) t bs <> RFuel.
+  Proof.
+    intros t bs. apply (safe_no_fuel false (List.length bs)); [|lia].
+    apply spec_dec_safe. intros _. lia.
+  Qed.
+  Theorem new_value_total : forall bs, new_value parse c bs <> RFuel.
+  Proof.
+    intro bs. apply (safe_no_fuel false (List.length bs)); [|lia]. apply new_value_safe.
+  Qed.
+  Theorem dec_capmap_total : forall bs, dec_capmap parse c bs <> RFuel.
+  Proof.
+    intro bs. apply (safe_no_fuel false (List.length bs)); [|lia]. apply dec_capmap_safe.
+  Qed.
+
+  (* generated decoders run spec_dec without fuel: total on the types they are generated for *)
+  Theorem gen_dec_total : forall t bs, plain_m t = true -> gen_dec parse t bs <> RFuel.
+  Proof.
+    intros t bs Hpl. unfold gen_dec. rewrite spec_dec_unfold.
+    apply (safe_no_fuel false (List.length bs)); [|lia].
+    apply spec_body_safe_gen; [apply spec_obj_safe|left; exact Hpl].
+  Qed.
+  Theorem gen_dec_no_panic : forall t bs, gen_dec parse t bs <> RPanic.
+  Proof. intros t bs. apply spec_dec_no_panic. Qed.
+  (* the statement of design/TOTAL_THEOREMS.md, as written there (vacuous) *)
+  Theorem gen_dec_total_weak : forall t bs, gen_dec parse t bs <> RFuel \/ True.
+  Proof. intros t bs. right. exact I. Qed.
+End T.
+
+(* without the premise: a generated decoder for a type holding "m" is out of fuel at once *)
+Example gen_dec_m_fuel : forall parse bs, gen_dec parse (TS SValue) bs = RFuel.
+Proof. intros parse bs. reflexivity. Qed.
+
+(* the premise of refl_dec_no_panic is needed: length -1 with the defect on *)
+Example refl_dec_neg_len_panics :
+  refl_dec wpinned tval_eqb (TList (TS SU8)) [xff; xff; xff; xff] = RPanic.
+Proof. vm_compute. reflexivity. Qed.
+
+Print Assumptions read_msg_total.
+Print Assumptions sig_read_no_panic.
+Print Assumptions spec_dec_no_panic.
+Print Assumptions refl_dec_no_panic.
+Print Assumptions new_value_no_panic.
+Print Assumptions dec_capmap_no_panic.
+Print Assumptions sig_read_total.
+Print Assumptions spec_dec_total.
+Print Assumptions refl_dec_total.
+Print Assumptions new_value_total.
+Print Assumptions dec_capmap_total.
+Print Assumptions gen_dec_total.
+Print Assumptions gen_dec_no_panic.
+Print Assumptions sig_read_ok_len.
+Print Assumptions sig_read_err_len.
+Print Assumptions spec_dec_ok_len.
+Print Assumptions spec_dec_err_len.
+Print Assumptions refl_dec_ok_len.
+Print Assumptions refl_dec_err_len.
+Print Assumptions dec_dval_ok_len.
+Print Assumptions dec_dval_err_len.
+Print Assumptions dec_capmap_ok_len.
+Print Assumptions dec_capmap_err_len.
